@@ -6,7 +6,13 @@ import (
 	"errors"
 	"fmt"
 	"sort"
+	"sync"
 
+	"github.com/asynkron/protoactor-go/actor"
+
+	as "github.com/dfklegend/cell2/actorex/service"
+	"github.com/dfklegend/cell2/apimapper/registry"
+	_ "github.com/dfklegend/cell2/node/builtin" // registers the system API (sys.pushmsg ...)
 	"github.com/dfklegend/cell2/node/builtin/channel"
 	"github.com/dfklegend/cell2/node/builtin/msgs"
 	"github.com/dfklegend/cell2/node/client/impls"
@@ -217,13 +223,51 @@ func frontDeliver(live, closing, ids []int64) []int64 {
 			u[i] = uint32(1000000 + v)
 		}
 	}
-	cs.PushMsg(&msgs.PushMsg{Ids: u, Route: "r", Data: []byte("x")})
+	// Delivered the way a back-end's multi-id push arrives: as the system call sys.pushmsg,
+	// dispatched through the process-wide "__sys__" collection with the context of the receiving
+	// front-end service.  Every OFront is its own front-end service in this ONE process (a node may
+	// host several), so anything the system entry remembers between calls shows.
+	frontNo++
+	g := &gate{NodeService: service.NewService()}
+	g.AddComponent("sessions", impls.NewSessionsComponent(cs))
+	sysOnce.Do(func() { registry.Registry.Build() })
+	col := registry.Registry.GetCollection(service.SystemAPI)
+	rc := as.NewRemoteContext()
+	rc.Update(&actorCtx{a: g})
+	answered := false
+	col.Call(rc, "sys.pushmsg", &msgs.PushMsg{Ids: u, Route: "r", Data: []byte("x")}, func(err error, ret interface{}) {
+		answered = err == nil
+	})
+	if !answered {
+		return []int64{-1} // the system call failed or was not answered: unmatchable
+	}
 	out := make([]int64, len(log))
 	for i, id := range log {
 		out[i] = idToTok[id]
 	}
 	return out
 }
+
+// a front-end service: a NodeService with a "sessions" component, as pomelo.ServiceCreateAcceptors builds it
+type gate struct {
+	*service.NodeService
+}
+
+func (g *gate) GetNodeService() *service.NodeService { return g.NodeService }
+func (g *gate) Receive(ctx actor.Context)           {}
+
+// the actor context a system call arrives with: only Actor() is used by the system entry
+type actorCtx struct {
+	actor.Context
+	a actor.Actor
+}
+
+func (c *actorCtx) Actor() actor.Actor { return c.a }
+
+var (
+	frontNo int
+	sysOnce sync.Once
+)
 
 // ---- generator ----
 
